@@ -139,6 +139,20 @@ pub fn interpret(p: &RefPos, legal: &[RMove], t: &SanText) -> Expect {
         // castling spelled as a king move ("Kg1"): not SAN, but harmless either way
         return Expect::Either(m);
     }
+    // pawn moves: the conventional forms are "e4" (no source), "exd5" (file) and the full
+    // square; a lone source rank ("4xd5") or a file on a push ("ee4") is grammar the library's
+    // own comments call illegal although its scanner takes it: either answer
+    if t.piece == Kind::P {
+        let conventional = match (t.sf.is_some(), t.sr.is_some()) {
+            (false, false) => !p.is_capture(m),
+            (true, false) => p.is_capture(m),
+            (true, true) => true,
+            (false, true) => false,
+        };
+        if !conventional {
+            return Expect::Either(m);
+        }
+    }
     let marker_ok = t.takes == p.is_capture(m) && (!t.ep || p.is_ep(m));
     let mark_ok = match t.mark {
         None => true,
